@@ -194,7 +194,7 @@ pub fn pump<S: Sys>(
             let (prefix, start) = &starts[*si];
             let cycle = &cycles[*ci];
             let mut s = start.clone();
-            let before = rep.violations_total;
+            let before = rep.own_violations(&cfg.prop);
             for it in 0..k {
                 for (pos, sym) in cycle.iter().enumerate() {
                     let pf = || {
@@ -223,7 +223,7 @@ pub fn pump<S: Sys>(
                         steps += 1;
                     }
                 }
-                if rep.violations_total > before + 3 {
+                if rep.own_violations(&cfg.prop) > before + 3 {
                     break; // enough witnesses for this (start, cycle)
                 }
             }
